@@ -520,3 +520,7 @@ def units(tier):
 def selftest():
     assert _popcount(np.array([0, 1, 255, 128], dtype='uint8')).tolist() == [0, 1, 8, 1]
     return stats.selftest() + ' ' + omia.selftest()
+
+
+# dimensions added after the fourth and fifth round of seeded changes (DESIGN.md 8.3, 8.4); part of the rule reported in the evidence
+RULE += ' Added with the fourth and fifth round of seeded changes: big-endian sample storage for CPA/DPA; containers used before with another preprocess chain / frame and then reassigned.'
